@@ -572,6 +572,15 @@ class MayRaise:
         f = self._f
         if en.startswith('logging.') or en.startswith('functools.partial:log.'):
             return  # A3
+        if en in ('builtins.str', 'builtins.str.__init__') and (len(n.args) >= 2 or any(kw.arg in ('encoding', 'errors') for kw in n.keywords)):
+            # str(b, 'utf-8'[, errors]) decodes: same failure mode as bytes.decode
+            mode = n.args[2].value if len(n.args) >= 3 and isinstance(n.args[2], ast.Constant) else None
+            for kw in n.keywords:
+                if kw.arg == 'errors' and isinstance(kw.value, ast.Constant):
+                    mode = kw.value.value
+            if mode not in ('replace', 'ignore', 'backslashreplace', 'surrogateescape'):
+                self._add_implicit(out, 'builtins.UnicodeDecodeError', n)
+            return
         if en in SAFE_EXT:
             return
         if en.endswith('.__init__'):
